@@ -344,3 +344,273 @@ Print Assumptions C16_reports_all_produced_from_rows.
 Print Assumptions C16_from_rows_nonvacuous.
 Print Assumptions C16_overdrawn_input_rejected.
 Print Assumptions C16_nonpositive_staking_rejected_by_matcher.
+
+(** ------------------------------------------------------------------------------------------------------------
+    END TO END (Model/EndToEnd.v, Proofs/EndToEndFront.v, Proofs/EndToEnd.v, Proofs/EndToEndExamples.v): from the CELLS of the
+    input workbook and the sections of the configuration file to the exit status and the produced reports.
+
+    [rp2_model c o secs ts workbook v envp : Z * list (gen_id * list sheetw)] is the literal composition of the layer models:
+    [ConfigModel.front_end] ([validate_config], [options_check], every sheet parsed by [parse_sheet] first) with the continuation
+    [back_end] = [txs_of_parsed] (InputData) ; [fractions_of gen_always_repush sched] (the matcher) per asset ; the [rinput]
+    assembled in sorted asset order with window / -n / long-term period / schedule from options + configuration ;
+    [run_reports] (ComputedData, then the generator models in discovery order) together with [MainRun.run] on the facts computed
+    from that rinput.  [o] : MainRun.options, [secs] : the tokenised INI file, [ts] : the timestamp oracle, [v] : renv,
+    [envp] : the long-term period rp2_generic reads from its environment. *)
+From RP2V Require Import Model.Parser Model.Render Model.TableOrderSpec Model.ConfigModel Model.EndToEnd
+  Model.MatchWf Proofs.FaultsCtor Proofs.EndToEndFront Proofs.EndToEnd Proofs.EndToEndAnyRows Proofs.EndToEndExamples.
+
+(** REJECTION.  Each cause is its own disjunct: the configuration is invalid; an option check fails; the sheet of some processed
+    asset (after any accepted ones) is missing or rejected by the parser; the front end accepts everything and for some asset
+    -- its transactions a [built_history] -- the lots run out at a disposal; or some account is overdrawn up to the to-date
+    without -n.  Then the exit status is non-zero and there is NO report.  (Chains C12_no_report_on_rejection,
+    C16_compute_tax_outcome and the C08 condition [some_overdraft].) *)
+Theorem C16_end_to_end_rejection : forall c o secs ts workbook v envp,
+  cause_config secs \/ cause_options c o secs \/ cause_sheet c o secs ts workbook \/
+  cause_lots_exhausted c o secs ts workbook \/ cause_overdraft c o secs ts workbook ->
+  fst (rp2_model c o secs ts workbook v envp) <> 0 /\ snd (rp2_model c o secs ts workbook v envp) = [].
+Proof. exact E2E_rejection. Qed.
+
+(** ... more generally: whatever makes matching + aggregation ([compute_tax] under the run's period / window / -n / schedule)
+    fail for one asset of an accepted workbook; and the overdraft for ANY parsed sheet (crypto-fee acquisitions included) *)
+Theorem C16_end_to_end_compute_tax_fails : forall c o secs ts workbook v envp s assets ps,
+  validate_config secs = Ok s -> options_check c (l1_options o) (Ok s) = (0, assets) ->
+  parse_all (pcfg_of s ts) assets workbook 0 = Ok ps ->
+  forall sched a p t, e2e_sched c o s = Some sched -> In (a, p) ps -> txs_of_parsed p = Ok t ->
+  is_err (compute_tax (country_period c envp) (o_from o) (o_to o) (o_neg o) (cs_exchanges s) (cs_holders s) sched t) ->
+  fst (rp2_model c o secs ts workbook v envp) <> 0 /\ snd (rp2_model c o secs ts workbook v envp) = [].
+Proof. exact e2e_compute_tax_fails. Qed.
+Theorem C16_end_to_end_overdrawn_any_sheet : forall c o secs ts workbook v envp s assets ps,
+  validate_config secs = Ok s -> options_check c (l1_options o) (Ok s) = (0, assets) ->
+  parse_all (pcfg_of s ts) assets workbook 0 = Ok ps ->
+  forall sched a p t fs cd, e2e_sched c o s = Some sched -> In (a, p) ps -> txs_of_parsed p = Ok t ->
+  fractions_of gen_always_repush sched t = Ok fs -> holders_ok t ->
+  compute (country_period c envp) (o_from o) (o_to o) true (cs_exchanges s) (cs_holders s) t fs = Ok cd ->
+  o_neg o = false -> some_overdraft (o_to o) t ->
+  fst (rp2_model c o secs ts workbook v envp) <> 0 /\ snd (rp2_model c o secs ts workbook v envp) = [].
+Proof. exact e2e_overdrawn_any_sheet. Qed.
+
+(** ... and exhausted lots for any parsed sheet whose matcher input is well formed (no [hist]; [C16_expected_sheet_wf] below) *)
+Theorem C16_end_to_end_lots_exhausted_any_rows : forall c o secs ts workbook v envp s assets ps sched a p t evs,
+  front_accepts c o secs ts workbook s assets ps -> e2e_sched c o s = Some sched -> In (a, p) ps ->
+  txs_of_parsed p = Ok t -> taxable_events t = Ok evs -> wf (t_ins t) sched (map event_of evs) -> lots_exhausted t evs ->
+  rp2_model c o secs ts workbook v envp = (1, []).
+Proof. exact e2e_lots_exhausted_any_rows. Qed.
+
+(** THE SEAM (front half).  Valid configuration, passed option checks, every processed asset's sheet the rendering of
+    well-formed tables ([rendered_workbook]: [wf_blocks], pairwise distinct table types in any order, any column layout, any junk,
+    blank rows), the typed rows yielding the transactions [ps] ([expected_all], at least one acquisition per asset): the run IS the
+    back end applied to [ps] -- transactions computed from the typed rows alone. *)
+Theorem C16_end_to_end_seam : forall c o secs ts workbook v envp s assets sheet trailing ps,
+  validate_config secs = Ok s -> options_check c (l1_options o) (Ok s) = (0, assets) ->
+  rendered_workbook (pcfg_of s ts) workbook sheet trailing assets ->
+  expected_all (pcfg_of s ts) sheet assets 0 = Ok ps -> (forall a p, In (a, p) ps -> pa_ins p <> []) ->
+  rp2_model c o secs ts workbook v envp = back_end c o v envp s ps.
+Proof. exact e2e_seam. Qed.
+
+(** the back half, for ANY accepted workbook (crypto-fee acquisitions included): ComputedData exists for every asset of the
+    assembled rinput + [reports_ok_hyps] => exit 0, exactly the configured reports in discovery order, each within capacity, and
+    the file names MainRun writes are those of the reports *)
+Theorem C16_end_to_end_back_half : forall c o secs ts workbook v envp s assets ps i,
+  front_accepts c o secs ts workbook s assets ps ->
+  supported c o -> (o_method o = None \/ cs_methods s = []) ->
+  Forall (fun e => str_in (snd e) method_plugins = true) (cs_methods s) ->
+  e2e_input c o envp s ps = Some i -> (exists cs, computed_all i (rp_assets i) = Ok cs) -> reports_ok_hyps v i ->
+  exists l, rp2_model c o secs ts workbook v envp = (0, l) /\ map fst l = discovery c /\
+            (forall g sheets, In (g, sheets) l -> run_gen v i g = inl sheets /\ within_capacity g sheets) /\
+            MainRun.run c o (l6_config s) (inp_of_rinput i) = (0, map (report_file c o s) l).
+Proof. exact e2e_success_of_computed. Qed.
+
+(** the row conditions of [built_history] that FOLLOW from the sheet (h = [sheet_hist cfg blocks], the raw rows the typed rows
+    resolve to; no crypto-fee acquisition): the parsed transactions are the constructors applied to the raw rows and the id
+    counter does not move; the row ids are the sheet rows of the tables' data rows; hence IN rows in increasing order, ids
+    distinct across the tables, InputData accepts the sets *)
+Theorem C16_sheet_rows_are_constructor_inputs : forall cfg counter blocks p,
+  expected cfg counter blocks = Ok p -> no_crypto_fee (sheet_hist cfg blocks) ->
+  build (sheet_hist cfg blocks) = txs_of_parsed p /\ pa_counter p = counter /\
+  map_result mk_in (h_ins (sheet_hist cfg blocks)) = Ok (pa_ins p) /\
+  map_result mk_out (h_outs (sheet_hist cfg blocks)) = Ok (pa_outs p) /\
+  map_result mk_intra (h_intras (sheet_hist cfg blocks)) = Ok (pa_intras p).
+Proof. exact build_of_expected. Qed.
+Theorem C16_sheet_in_rows_increasing : forall cfg asset counter blocks p,
+  wf_blocks cfg asset 1 blocks -> expected cfg counter blocks = Ok p -> no_crypto_fee (sheet_hist cfg blocks) ->
+  in_rows_increasing (sheet_hist cfg blocks).
+Proof. exact sheet_in_rows_increasing. Qed.
+Theorem C16_sheet_distinct_row_ids : forall cfg asset counter blocks p,
+  wf_blocks cfg asset 1 blocks -> expected cfg counter blocks = Ok p -> no_crypto_fee (sheet_hist cfg blocks) ->
+  FromRowsSpec.distinct_row_ids (sheet_hist cfg blocks).
+Proof. exact sheet_distinct_row_ids. Qed.
+Theorem C16_sheet_build_succeeds : forall cfg asset counter blocks p,
+  wf_blocks cfg asset 1 blocks -> expected cfg counter blocks = Ok p -> pa_ins p <> [] -> no_crypto_fee (sheet_hist cfg blocks) ->
+  exists t, build (sheet_hist cfg blocks) = Ok t /\ txs_of_parsed p = Ok t.
+Proof. exact sheet_build_ok. Qed.
+(** ... and the holder indices of the built transactions are indices into the configured holder list *)
+Theorem C16_sheet_holders_ok : forall cfg l t,
+  Z.of_nat (length (pc_holders cfg)) <= 100000 -> build (hist_of_rows cfg l) = Ok t -> holders_ok t.
+Proof. exact sheet_holders_ok. Qed.
+
+(** SUCCESS.  Valid configuration; supported options ([supported]: -m a choice of the country, language shipped, from <= to, no
+    -l); -m and [accounting_methods] not both given, schedule entries name existing methods, distinct schedule years; -a (if
+    given) a configured asset; every processed asset's sheet the rendering of well-formed tables ([rendered_workbook]) whose typed
+    rows construct with at least one acquisition; [sheet_rows_ok] for every sheet -- what REMAINS a hypothesis about the rows:
+    no acquisition with a crypto fee (covered by [C16_end_to_end_success_any_rows] below), STAKING amounts positive, one instant
+    one local year (F13), the
+    schedule covers every event year, the lots never run out, and -n or no overdraft up to the to-date; at most 100000
+    configured holders; [reports_ok_hyps] on the resulting rinput.
+    Then: exit 0; exactly the configured reports of the country in discovery order, each produced by its generator model on the
+    rinput [i] and within sheet capacity; MainRun's control flow exits 0 having written exactly their files; and the
+    transactions [i] holds are, asset by asset in sorted order, [txs_of_parsed] of [expected] of the rendered blocks (the cells of
+    the sheet) = [build] of the sheet's raw rows, with the matcher's fractions. *)
+Theorem C16_end_to_end_success : forall c o secs ts workbook v envp s sheet trailing,
+  validate_config secs = Ok s ->
+  supported c o ->
+  (o_method o = None \/ cs_methods s = []) ->
+  Forall (fun e => str_in (snd e) method_plugins = true) (cs_methods s) ->
+  NoDup (map fst (cs_methods s)) ->
+  (forall a, o_asset o = Some a -> In a (cs_assets s)) ->
+  Z.of_nat (length (cs_holders s)) <= 100000 ->
+  rendered_workbook (pcfg_of s ts) workbook sheet trailing (run_assets o s) ->
+  (forall a, In a (run_assets o s) -> exists p, expected (pcfg_of s ts) 0 (sheet a) = Ok p /\ pa_ins p <> []) ->
+  (forall sched a, e2e_sched c o s = Some sched -> In a (run_assets o s) ->
+                   sheet_rows_ok sched (o_neg o) (o_to o) (sheet_hist (pcfg_of s ts) (sheet a))) ->
+  (forall ps i, expected_all (pcfg_of s ts) sheet (run_assets o s) 0 = Ok ps -> e2e_input c o envp s ps = Some i -> reports_ok_hyps v i) ->
+  exists ps i l,
+    expected_all (pcfg_of s ts) sheet (run_assets o s) 0 = Ok ps /\
+    e2e_input c o envp s ps = Some i /\
+    rp2_model c o secs ts workbook v envp = (0, l) /\
+    map fst l = discovery c /\
+    (forall g sheets, In (g, sheets) l -> run_gen v i g = inl sheets /\ within_capacity g sheets) /\
+    MainRun.run c o (l6_config s) (inp_of_rinput i) = (0, map (report_file c o s) l) /\
+    Forall2 (fun ra ap => ra_name ra = fst ap /\
+                          expected (pcfg_of s ts) 0 (sheet (fst ap)) = Ok (snd ap) /\
+                          txs_of_parsed (snd ap) = Ok (ra_txs ra) /\
+                          build (sheet_hist (pcfg_of s ts) (sheet (fst ap))) = Ok (ra_txs ra) /\
+                          fractions_of gen_always_repush (rp_sched i) (ra_txs ra) = Ok (ra_fracs ra))
+            (rp_assets i) (sort_leb by_name ps).
+Proof. exact E2E_success. Qed.
+
+(** SUCCESS FOR ANY ROWS THE PARSER ACCEPTS (crypto-fee acquisitions included; Proofs/EndToEndAnyRows.v).  No [hist]: the
+    well-formedness of the matcher input ([MatchWf.wf]) is proved directly for the transactions [expected] gives for a well-formed
+    sheet -- sheet rows numbered in order, the artificial ids of fee disposals in [counter', counter), below every sheet row and
+    pairwise distinct, every amount positive (acquisitions: unless STAKING), holder indices inside the configured list -- and
+    [compute] is total on a well-formed matcher input up to the balance guard.  [ps] = [expected_all] of the sheets (the artificial-id
+    counter threaded through the assets); [parsed_rows_ok] = what remains a hypothesis about each expected sheet: STAKING amounts
+    positive, one instant one local year (F13), the schedule covers every event year, the lots never run out, -n or no overdraft. *)
+Theorem C16_end_to_end_success_any_rows : forall c o secs ts workbook v envp s sheet trailing ps,
+  validate_config secs = Ok s ->
+  supported c o ->
+  (o_method o = None \/ cs_methods s = []) ->
+  Forall (fun e => str_in (snd e) method_plugins = true) (cs_methods s) ->
+  NoDup (map fst (cs_methods s)) ->
+  (forall a, o_asset o = Some a -> In a (cs_assets s)) ->
+  Z.of_nat (length (cs_holders s)) <= 100000 ->
+  rendered_workbook (pcfg_of s ts) workbook sheet trailing (run_assets o s) ->
+  expected_all (pcfg_of s ts) sheet (run_assets o s) 0 = Ok ps -> (forall a p, In (a, p) ps -> pa_ins p <> []) ->
+  (forall sched a p, e2e_sched c o s = Some sched -> In (a, p) ps -> parsed_rows_ok sched (o_neg o) (o_to o) p) ->
+  (forall i, e2e_input c o envp s ps = Some i -> reports_ok_hyps v i) ->
+  exists i l,
+    e2e_input c o envp s ps = Some i /\
+    rp2_model c o secs ts workbook v envp = (0, l) /\
+    map fst l = discovery c /\
+    (forall g sheets, In (g, sheets) l -> run_gen v i g = inl sheets /\ within_capacity g sheets) /\
+    MainRun.run c o (l6_config s) (inp_of_rinput i) = (0, map (report_file c o s) l) /\
+    Forall2 (fun ra ap => ra_name ra = fst ap /\ txs_of_parsed (snd ap) = Ok (ra_txs ra) /\
+                          fractions_of gen_always_repush (rp_sched i) (ra_txs ra) = Ok (ra_fracs ra))
+            (rp_assets i) (sort_leb by_name ps).
+Proof. exact E2E_success_any_rows. Qed.
+
+(** its two ingredients: the matcher input of an expected sheet is well formed ([sheet_sets_ok p t]: InputData accepted the sets,
+    lots sorted / distinct / not empty, every amount positive, the taxable events defined -- all derived from [wf_blocks]) ... *)
+Theorem C16_expected_sheet_sets : forall cfg, Z.of_nat (length (pc_holders cfg)) <= 100000 ->
+  forall asset counter blocks p,
+  counter <= 0 -> wf_blocks cfg asset 1 blocks -> expected cfg counter blocks = Ok p -> pa_ins p <> [] ->
+  pa_counter p <= counter /\ exists t, sheet_sets_ok p t.
+Proof. exact expected_sheet_sets. Qed.
+Theorem C16_expected_sheet_wf : forall p t sched evs,
+  sheet_sets_ok p t -> taxable_events t = Ok evs ->
+  (forall x, In x (pa_ins p) -> i_type x = STAKING -> 0 < i_crypto_in x) ->
+  hist_same_instant_same_year evs -> hist_sched_covers sched evs -> NoDup (map fst sched) ->
+  wf (t_ins t) sched (map event_of evs).
+Proof. exact sheet_sets_wf. Qed.
+(** ... and ComputedData exists for every well-formed matcher input the matcher succeeded on (no [hist] needed) *)
+Theorem C16_computed_data_exists_wf : forall sched t evs fs,
+  taxable_events t = Ok evs -> wf (t_ins t) sched (map event_of evs) -> fractions_of gen_always_repush sched t = Ok fs ->
+  forall period from_day to_day allow exs hos,
+  allow = true \/ (holders_ok t /\ never_overdrawn to_day t) ->
+  exists cd, compute period from_day to_day allow exs hos t fs = Ok cd.
+Proof. exact compute_total_wf. Qed.
+
+(** the file-name view of the run is [ConfigModel.front_end] itself with the named reports of the back end *)
+Theorem C16_end_to_end_is_front_end : forall c o secs ts workbook v envp,
+  exists f, rp2_files c o secs ts workbook v envp =
+            (fst (rp2_model c o secs ts workbook v envp), map f (snd (rp2_model c o secs ts workbook v envp))).
+Proof. exact rp2_model_files. Qed.
+
+(** non-vacuity (Proofs/EndToEndExamples.v, evaluated by the kernel): a two-asset workbook for rp2_us (configuration "BBB,AAA" with
+    the permuted column maps of Proofs/ParserExample.v; rendered sheets with junk, blank rows, an empty INTRA table) meets every
+    hypothesis of [C16_end_to_end_success]; the rinput assembled from its cells is the encoded input [ex2_i] of
+    [C16_from_rows_nonvacuous]; exit 0 with the three US reports ... *)
+Theorem C16_end_to_end_nonvacuous :
+  validate_config ok_secs = Ok ok_s /\ supported US opts0 /\
+  rendered_workbook (pcfg_of ok_s ok_ts) ok_workbook ok_sheet ok_trailing (run_assets opts0 ok_s) /\
+  (forall a, In a (run_assets opts0 ok_s) ->
+     sheet_rows_ok ok_sched (o_neg opts0) (o_to opts0) (sheet_hist (pcfg_of ok_s ok_ts) (ok_sheet a))) /\
+  e2e_input US opts0 0 ok_s ok_ps = Some ex2_i /\ reports_ok_hyps (wv 0) ex2_i /\
+  exists l, rp2_model US opts0 ok_secs ok_ts ok_workbook (wv 0) 0 = (0, l) /\
+            map (fun gs => (fst gs, length (snd gs))) l = [(GOpenPositions, 3%nat); (GFullReport, 6%nat); (GTaxUS, 3%nat)] /\
+            (forall g sheets, In (g, sheets) l -> run_gen (wv 0) ex2_i g = inl sheets /\ within_capacity g sheets) /\
+            map ra_name (rp_assets ex2_i) = [s_AAA; s_BBB] /\
+            map (fun a => txs_of_parsed (snd a)) (sort_leb by_name ok_ps) = map (fun ra => Ok (ra_txs ra)) (rp_assets ex2_i).
+Proof. exact e2e_success_nonvacuous. Qed.
+(** ... the same workbook without the TABLE END row of AAA's last table: [cause_sheet] holds, exit 1, no report; AAA selling 3 of
+    the 2 bought: [cause_lots_exhausted]; AAA bought on one exchange and sold on another: [cause_overdraft], and exit 0 with -n *)
+Theorem C16_end_to_end_rejection_nonvacuous :
+  (cause_sheet US opts0 ok_secs ok_ts bad_workbook /\ rp2_model US opts0 ok_secs ok_ts bad_workbook (wv 0) 0 = (1, [])) /\
+  (cause_lots_exhausted US opts0 ok_secs ok_ts x_workbook /\ rp2_model US opts0 ok_secs ok_ts x_workbook (wv 0) 0 = (1, [])) /\
+  (cause_overdraft US opts0 od_secs ok_ts od_workbook /\ rp2_model US opts0 od_secs ok_ts od_workbook (wv 0) 0 = (1, []) /\
+   exists l, rp2_model US opts_n od_secs ok_ts od_workbook (wv 0) 0 = (0, l) /\ map fst l = discovery US).
+Proof. exact (conj e2e_rejection_nonvacuous (conj e2e_lots_exhausted_nonvacuous e2e_overdraft_nonvacuous)). Qed.
+
+(** ... and an acquisition WITH a crypto fee (the case [C16_end_to_end_success] leaves out; AAA's sheet has the fee cell of
+    Proofs/ParserExample.v, tables in the order OUT, IN): the parser's split gives the artificial fee disposal -1; the seam and the
+    back half compose -- ComputedData exists and [reports_ok_hyps] holds for the assembled rinput (by computation), exit 0 with
+    the three US reports *)
+Theorem C16_end_to_end_crypto_fee_nonvacuous :
+  map (fun ap => (fst ap, map i_row (pa_ins (snd ap)), map o_row (pa_outs (snd ap)), pa_counter (snd ap))) fee_ps =
+    [(s_BBB, [3; 4], [9], 0); (s_AAA, [8], [4; -1], -1)] /\
+  rp2_model US opts0 ok_secs ok_ts fee_workbook (wv 0) 0 = back_end US opts0 (wv 0) 0 ok_s fee_ps /\
+  e2e_input US opts0 0 ok_s fee_ps = Some fee_i /\
+  (exists cs, computed_all fee_i (rp_assets fee_i) = Ok cs) /\ reports_ok_hyps (wv 0) fee_i /\
+  exists l, rp2_model US opts0 ok_secs ok_ts fee_workbook (wv 0) 0 = (0, l) /\ map fst l = discovery US /\
+            (forall g sheets, In (g, sheets) l -> run_gen (wv 0) fee_i g = inl sheets /\ within_capacity g sheets).
+Proof. exact e2e_crypto_fee_nonvacuous. Qed.
+
+(** ... and that workbook meets every hypothesis of [C16_end_to_end_success_any_rows]; the fee disposal -1 and the sale are both
+    matched to the lot of sheet row 8 *)
+Theorem C16_end_to_end_any_rows_nonvacuous :
+  (forall a p, In (a, p) fee_ps -> parsed_rows_ok ok_sched (o_neg opts0) (o_to opts0) p) /\
+  map (fun f => (f_ev f, f_lot f)) fee_fs_AAA = [(-1, Some 8); (4, Some 8)] /\
+  exists i l, e2e_input US opts0 0 ok_s fee_ps = Some i /\
+              rp2_model US opts0 ok_secs ok_ts fee_workbook (wv 0) 0 = (0, l) /\ map fst l = discovery US.
+Proof. exact e2e_any_rows_nonvacuous. Qed.
+
+Print Assumptions C16_end_to_end_rejection.
+Print Assumptions C16_end_to_end_lots_exhausted_any_rows.
+Print Assumptions C16_end_to_end_success_any_rows.
+Print Assumptions C16_expected_sheet_sets.
+Print Assumptions C16_expected_sheet_wf.
+Print Assumptions C16_computed_data_exists_wf.
+Print Assumptions C16_end_to_end_any_rows_nonvacuous.
+Print Assumptions C16_end_to_end_crypto_fee_nonvacuous.
+Print Assumptions C16_end_to_end_compute_tax_fails.
+Print Assumptions C16_end_to_end_overdrawn_any_sheet.
+Print Assumptions C16_end_to_end_seam.
+Print Assumptions C16_end_to_end_back_half.
+Print Assumptions C16_sheet_rows_are_constructor_inputs.
+Print Assumptions C16_sheet_in_rows_increasing.
+Print Assumptions C16_sheet_distinct_row_ids.
+Print Assumptions C16_sheet_build_succeeds.
+Print Assumptions C16_sheet_holders_ok.
+Print Assumptions C16_end_to_end_success.
+Print Assumptions C16_end_to_end_is_front_end.
+Print Assumptions C16_end_to_end_nonvacuous.
+Print Assumptions C16_end_to_end_rejection_nonvacuous.
